@@ -250,7 +250,7 @@ def roland_expected(model):
                 referenced.add(pi)
                 groups.append((v["name"], pi))
     for pi, p in enumerate(model["performances"]):
-        if pi not in referenced:
+        if p is not None and pi not in referenced:
             groups.append(("_Orphan_perf", pi))
     for vname, pi in groups:
         perf = model["performances"][pi]
@@ -369,6 +369,16 @@ def _small_c02(tier, seed, shard=(0, 1)):
                   "partials": [{"name": "PT1", "samples": [0, 1]}, {"name": "PT2", "samples": [1, 2]}],
                   "samples": [_rsample("S0", 50, 1), _rsample("S1", 60, 2, mode=5), _rsample("S2", 70, 3, mode=1, r_end=40),
                               _rsample("UNUSED", 20, 4)]})
+    # directories with holes: an orphaned / a referenced performance in a slot at or beyond the ID area's performance count
+    for perfs, vrefs in (([{"name": "P1", "patches": [0]}, None, {"name": "ORPHAN", "patches": [1]}], [0]),
+                         ([None, None, None, {"name": "HIGH", "patches": [0]}, None, {"name": "ORPHAN", "patches": [1]}], [3]),
+                         ([{"name": "P1", "patches": [0]}] + [None] * 299 + [{"name": "FAR", "patches": [1]}], [0])):
+        cases.append({"fat_version": 1, "disk_name": "D",
+                      "volumes": [{"name": "V1", "performances": vrefs}],
+                      "performances": perfs,
+                      "patches": [{"name": "PA1", "partials": [0]}, {"name": "PA2", "partials": [1]}],
+                      "partials": [{"name": "PT1", "samples": [0]}, {"name": "PT2", "samples": [1]}],
+                      "samples": [_rsample("S0", 50, 1), _rsample("S1", 60, 2)]})
     # the same sample reached through two patches of one performance
     cases.append({"fat_version": 1, "disk_name": "D",
                   "volumes": [{"name": "V", "performances": [0]}],
@@ -416,7 +426,7 @@ CONCRETE["e2e:C02"] = {
     "build": _build_c02, "small": _small_c02, "oracle": _oracle_c02, "shards": 8,
     "nontrivial": lambda i, s: s["kind"] == "return",
     "bound": "Roland images from the independent writer: 7 loop modes x windows ending at and one word before a cluster end, every permutation "
-             "of a 3-cluster chain x cluster_top {0,1}, 6 frequency codes, FAT versions 1 and 2, shared/orphaned/unreferenced entries, "
+             "of a 3-cluster chain x cluster_top {0,1}, 6 frequency codes, FAT versions 1 and 2, shared/orphaned/unreferenced entries, performance directories with empty slots (entries beyond the ID-area count), "
              "a sample reached through two patches, plus 6 (quick) / 80 (thorough) random models",
     "timeout_s": 60.0, "budget_quick": 200, "budget_thorough": 1200,
 }
